@@ -28,6 +28,12 @@ try:
     os.makedirs(os.path.join(repo, "purl", "tests"), exist_ok=True)
     shutil.copy(demo, os.path.join(repo, "purl", "tests", "seeded_demo.rs"))
     feats = ["--features", "serde"] if "serde" in open(demo).read() else []
+    readme = os.path.join(dst, "README.md")
+    if os.path.exists(readme):
+        first = open(readme).readline().strip()
+        if first.startswith("FAILS-WITH:"):
+            feats = first[len("FAILS-WITH:"):].split()
+    res["demo_flags"] = feats
     d1 = subprocess.run(["cargo", "test", "-p", "purl", "--offline", "--test", "seeded_demo"] + feats, cwd=repo, env=env, capture_output=True, text=True)
     res["demo_fails_with_change"] = d1.returncode != 0 and "test result: FAILED" in d1.stdout
     res["demo_with_change"] = [l for l in d1.stdout.splitlines() if l.startswith("test ") or l.startswith("test result")][:8]
